@@ -64,6 +64,20 @@ CLAIMED.update({
             "means, variances, chosen timepoints and marginal likelihood proved equal on every path.",
             "As C10; priors symbolic (shared through a node-name map); samples at time 0; ignore_oldest_root off.",
             TECH + "; relational (two-input) execution", "4/C11"),
+    "C19": ("For every positive real x (symbolic, piecewise over the axis) z3 proves the executed arithmetic of "
+            "_digamma/_trigamma equal to the exact recurrence plus the Stirling series with exact Bernoulli "
+            "coefficients (to 1e-16) and bounds the first omitted term where the series is used (1e-14 / 1e-11 "
+            "absolute) and the neglected term of the small-x forms (2e-10 / 2e-8 relative); _betaln equals its "
+            "lgamma combination; approximate_gamma_mom matches mean and variance exactly iff both are positive; "
+            "approximate_gamma_kl / _iqr (Newton loop followed for <= 2 iterations quick, <= 4/3 thorough, "
+            "transcendental callees uninterpreted): positive shape <= cap, mean / lower quantile matched "
+            "exactly, iterates are exactly Newton's method for the stated equation, exit only under the "
+            "stated tolerance, cap only when exceeded, failures are KLMinimizationFailedError with the stated "
+            "cause.",
+            "Narrowed: convergence of the Newton iterations and floating-point rounding of the series are "
+            "not decided; the enveloping property of the Stirling series is a textbook fact taken as given. "
+            "Accuracy budgets are those the real code meets (it is not at machine precision near its "
+            "cut-offs: 1.6e-10 relative for digamma at 1e-5, 4e-11 for trigamma at 5).", TECH, "4/C19"),
     "C38": ("outside_pass(ignore_oldest_root=True) on 6-10 small inputs incl. two-root inputs with the oldest root last "
             "and not last: every outside vector proved proportional to a reference pass that omits exactly the messages "
             "from the root with the greatest input time.  Reports the genuine defect F10 (oldest root not the last node) "
